@@ -131,6 +131,10 @@ def stepLine (ws : List String) : Option String :=
     some (match tp.toList with
     | [a, b, c] => (match evmNewCustom (bit a) (bit b) (bit c) with | .ok _ => "ok custom" | .err _ => "err" | .panic _ => "panic")
     | _ => "bad-op")
+  | ["evmget", _, _, _, tp] =>
+    some (match tp.toList with
+    | [a, b, c] => (match evmGetNetwork (bit a) (bit b) (bit c) with | .ok _ => "ok custom" | .err _ => "err" | .panic _ => "panic")
+    | _ => "bad-op")
   | ["evmcsv", _, tp] =>
     some (if tp == "na" then (match evmFromCsv false [] with | .ok _ => "ok custom" | .err _ => "err" | .panic _ => "panic") else
     let parts := (tp.splitOn ",").map fun p => match p.toList with
